@@ -180,7 +180,9 @@ def sym_sender_exception(lazy, via, when):
 
 # ---------------------------------------------------------------------------- processor level
 LAY = ctx.Layout([0, 100, 200, 300], [[(1, 5, 0), (20, 30, 1)], [(110, 120, 2)], [(210, 215, 3), (250, 260, 4)]])
-STAGES = ["source", "mid", "multi", "loader", "saver_target", "saver_side", "consumer", "exhaust", "apply"]
+STAGES = ["source", "mid", "multi", "loader", "saver_target", "saver_side", "saver_sibling", "consumer", "exhaust", "apply"]
+# "saver_sibling": the saver of the OTHER output (sa, listed first in provides) of the multi-output plugin that makes the
+# target (sb) fails
 # "apply": the consumer-side code that runs inside get_iter for every chunk (a function registered under
 # apply_data_function) raises at chunk j while the pipeline itself is healthy
 # "exhaust": a plugin that computes only once all its input has arrived fails - i.e. AFTER the source is exhausted and
@@ -227,8 +229,8 @@ def _pipeline(stage, j, obj, L, fe_classes):
                 raise ZeroDivisionError("loader fails")
             return real_read(backend_key, chunk_info, dtype, compressor)
         be._read_chunk = bad_read
-    if stage in ("saver_target", "saver_side"):
-        which = "sb" if stage == "saver_target" else "m1"
+    if stage in ("saver_target", "saver_side", "saver_sibling"):
+        which = {"saver_target": "sb", "saver_side": "m1", "saver_sibling": "sa"}[stage]
         real_saver = be._saver
 
         def _saver(key, metadata, **kw):
